@@ -3,8 +3,15 @@ from . import _e1check
 PID, CORPUS = "C07", "pv.corpora.c07"
 
 
+def _extra(cfg):
+    from ..corpora import c07 as C
+
+    v, n = _e1check.rejection_clauses(C.rejections(), "c07")
+    return v, n, {"rejection_clauses_checked": n}
+
+
 def run(tier, seed):
-    return _e1check.run(PID, CORPUS, tier, seed)
+    return _e1check.run(PID, CORPUS, tier, seed, extra=_extra)
 
 
 def replay(path):
